@@ -23,7 +23,7 @@ theorem bodies_ok :
     [("UInt64ToString", "func (x uint64) string { return ‹fmt›.Sprintf(\"%d\", x) }"),
      ("Assume", "func (c bool) { if !c { panic(\"Assume condition violated\") } }"),
      ("Assert", "func (c bool) { if !c { panic(\"Assert condition violated\") } }"),
-     ("MapClear", "func [M ~map[K]V, K comparable, V any](m M) { for k := range m { delete(m, k) } }"),
+     ("MapClear", "func [M ~map[K]V, K comparable, V any](m M) { clear(m) }"),
      ("WaitTimeout", "func (cond *‹sync›.Cond, timeoutMs uint64) { ‹github.com/goose-lang/primitive›.WaitTimeout(cond, timeoutMs) }")] := rfl
 
 /-- T-gen obligation: the protocol that `Model/WaitTimeout.lean` models is the body of
@@ -45,14 +45,29 @@ theorem dec_nonempty (n : Nat) : Decimal.dec n ≠ [] := Decimal.dec_ne_nil' n
 theorem dec_no_leading_zero (n : Nat) : (Decimal.dec n).head? = some '0' → Decimal.dec n = ['0'] :=
   Decimal.dec_no_leading_zero' n
 
-/-! ### MapClear: for every iteration order the map ends empty, and is still usable -/
+/-! ### MapClear: the map ends empty — for EVERY key type — and is still usable
 
-theorem mapclear_empty {κ ν : Type} [DecidableEq κ] (picks : Nat → Nat) (m : MapClear.GoMap κ ν) :
-    MapClear.mapClear picks m = [] := MapClear.mapClear_empty' picks m
+The body is the builtin `clear(m)` (pinned above); its meaning is the Go specification's, so
+`mapclear_empty` is true by definition of the model and the evidence that the real builtin behaves
+so (also for NaN keys) is the correspondence check. The two `loop_delete_*` theorems are about the
+body before the repair: right for reflexive key equality in every iteration order, wrong for every
+key that equals nothing (the defect the correspondence check reported). -/
 
-theorem mapclear_usable {κ ν : Type} [DecidableEq κ] (picks : Nat → Nat) (m : MapClear.GoMap κ ν) (k : κ) (v : ν) :
-    MapClear.lookup (MapClear.insert (MapClear.mapClear picks m) k v) k = some v := by
-  rw [MapClear.mapClear_empty']; exact MapClear.lookup_insert_nil k v
+theorem mapclear_empty {κ ν : Type} (m : MapClear.GoMap κ ν) : MapClear.mapClear m = [] := rfl
+
+theorem mapclear_usable {κ ν : Type} [DecidableEq κ] (m : MapClear.GoMap κ ν) (k : κ) (v : ν) :
+    MapClear.lookup (MapClear.insert (MapClear.mapClear m) k v) k = some v :=
+  MapClear.lookup_insert_nil k v
+
+theorem loop_delete_clears_reflexive_keys {κ ν : Type} (eq : κ → κ → Bool) (order : List (κ × ν))
+    (m : MapClear.GoMap κ ν) (hrefl : ∀ q ∈ m, eq q.1 q.1 = true) (hall : ∀ q ∈ m, q ∈ order) :
+    MapClear.loopClear eq order m = [] :=
+  MapClear.loopClear_empty_of_refl eq order m hrefl hall
+
+theorem loop_delete_keeps_nan_keys {κ ν : Type} (eq : κ → κ → Bool) (order : List (κ × ν))
+    (m : MapClear.GoMap κ ν) (q : κ × ν) (hq : q ∈ m) (hnan : ∀ k, eq q.1 k = false) :
+    q ∈ MapClear.loopClear eq order m :=
+  MapClear.loopClear_keeps_irreflexive eq order m q hq hnan
 
 /-! ### Assume / Assert panic exactly when the argument is false -/
 
@@ -93,7 +108,11 @@ theorem waittimeout_can_return (s : WaitTimeout.St) (h : WaitTimeout.Reachable s
 example : Decimal.decString 18446744073709551615 = "18446744073709551615" := by decide
 example : Decimal.decString 0 = "0" := by decide
 example : Decimal.decString 1000 = "1000" := by decide
-example : MapClear.mapClear (fun i => 7 * i + 3) [(1, "a"), (5, "b"), (9, "c")] = [] := by decide
+example : MapClear.mapClear [(1, "a"), (5, "b"), (9, "c")] = [] := rfl
+/-- the old loop on ordinary keys, produced in the order 5, 9, 1 -/
+example : MapClear.loopClear (fun a b : Nat => a == b) [(5, "b"), (9, "c"), (1, "a")] [(1, "a"), (5, "b"), (9, "c")] = [] := by decide
+/-- the old loop with a NaN-like key (`none` equals nothing): it stays -/
+example : MapClear.loopClear (fun a b : Option Nat => a.isSome && a == b) [(some 5, "b"), (none, "nan")] [(some 5, "b"), (none, "nan")] = [(none, "nan")] := by decide
 /-- a timed-out call: the caller returns owning the lock while the helper is still parked (a ghost waiter) -/
 example : (WaitTimeout.run WaitTimeout.init [.spawn, .helperWait, .envLock 0, .timerFire, .selectTimer, .envUnlock 0, .callerLock]).c = .returned
     ∧ (WaitTimeout.run WaitTimeout.init [.spawn, .helperWait, .envLock 0, .timerFire, .selectTimer, .envUnlock 0, .callerLock]).h = .parked := by decide
